@@ -11,9 +11,15 @@ def run(tier, rep):
     pc.check(rep, "C01", tier, ["children", "attrs", "text", "docs3"], {"unsound"}, "C01",
              sessions=400 if tier == "quick" else 6000, nontrivial=pc.has_demotion_or_multi, rule=RULE,
              invariants=["TypeOK", "Sound", "StackWF", "ResultWF"])
+    # renderer half: every attribute / child / text of the tree has a field bound to its XML (local) name with the
+    # Option / Vec / String wrappers of the tree's flags (RenderProps!ReflectTags on the real output)
+    from . import render_common as rc
+    rc.render_pools(rep, "C01", tier, ["prefixed", "xmlnsish", "attrcase"], {"FIELDS_DIFFER", "STRUCT_COUNT"},
+                    limit=200 if tier == "quick" else 5000)
     rep.assumptions += ["Admits is the property's own definition of 'describes'; that real deserializers agree with it is "
-                        "decided by C02 / C13", "the placement of Option / Vec / String and the rename bindings in the rendered "
-                        "text are bound by the renderer conformance (C04, C10, C16)"]
+                        "decided by C02 / C13", "the statement on rendered structs is decomposed: Parser!Sound on the tree (bound by replay and "
+                        "SchemaTrace) and RenderProps!ReflectTags on the rendering of the tree (bound by RenderTrace); MC_Pipeline.tla "
+                        "checks the composition on the model"]
 
 
 def replay(obj, rep):
